@@ -6,7 +6,10 @@ The life-cycle machine of `Model/C12.lean` is one machine with four switches (`C
 subsystems.  The invariants below are proved for **every** switch setting and **every** operation sequence
 (define / redefine at file level or at run time, any start order of the new subsystem's managers, delete, unload/reload,
 any number of contexts).  Where the code leaves the property, a `_cex` theorem exhibits the reachable sequence
-(recorded findings C12-F1 … F6) and the positive theorem states the fragment that does hold.
+(open findings C12-F1, F4, F5, F6) and the positive theorem states the fragment that does hold.  The two repairs made in
+/repo (C12-F2: a name given twice is registered once; C12-F3: the new subsystem registers under the global-context name)
+are switches whose current values are extracted from the source (`C12_cfg_current`); the former counterexamples are kept
+as `_regress` theorems about `legacyPreFix` / `newPreFix`.
 -/
 namespace PsModel.C12
 open PsModel.C16 (aget aset adel)
@@ -14,22 +17,37 @@ open PsModel.C16 (aget aset adel)
 /-- **Reference counting is consistent, always.**  After any operation sequence in either subsystem, for every service
 name: it is registered in Home Assistant iff its count is positive iff it has an owner entry; the count is at least the
 number of registrations the live holders (functions / decorator managers) will give back, and *exactly* that number
-when the started declarations are kept as a list (new subsystem). -/
+when the holder's bookkeeping is exact (`Exact cfg`: the started declarations are kept as a list – new subsystem –
+or a name that is already tracked is not registered again – legacy since the repair). -/
 theorem C12_count_inv (cfg : Cfg) (ops : List Op) (k : Svc) :
     (registered (run cfg {} ops).reg k = true ↔ cntOf (run cfg {} ops).reg k > 0) ∧
     ((aget k (run cfg {} ops).reg.owner).isSome = true ↔ cntOf (run cfg {} ops).reg k > 0) ∧
     trackedCount (run cfg {} ops).holders k ≤ cntOf (run cfg {} ops).reg k ∧
-    (cfg.trackAsSet = false → trackedCount (run cfg {} ops).holders k = cntOf (run cfg {} ops).reg k) := by
+    (Exact cfg → trackedCount (run cfg {} ops).holders k = cntOf (run cfg {} ops).reg k) := by
   have hi := inv_run cfg ops {} (inv_init cfg)
   obtain ⟨h1, h2⟩ := hi.regOK k
   refine ⟨?_, ?_, hi.cntGe k, fun hs => hi.cntEq hs k⟩
   · simp only [registered]; rw [h1]; simp
   · rw [h2]; simp
 
-/-- **Exact counting in the legacy subsystem (partial: no function names a service twice).**  When definitions are started
+/-- **The working tree contains both repairs**: the switch values extracted from `trigger_init` and
+`ServiceDecorator.start` are the repaired ones (undoing a repair in the source makes this theorem fail). -/
+theorem C12_cfg_current :
+    legacyCfg = ⟨true, false, false, false, false, true⟩ ∧ newCfg = ⟨false, false, true, true, true, false⟩ := by decide
+
+/-- **Exact counting in both subsystems as they are now**: for every operation sequence the count of every service is
+exactly the number of registrations the live holders will give back (legacy: the holders are the live functions,
+`C12_legacy_holders_live`). -/
+theorem C12_count_exact (ops : List Op) (k : Svc) :
+    trackedCount (run legacyCfg {} ops).holders k = cntOf (run legacyCfg {} ops).reg k ∧
+    trackedCount (run newCfg {} ops).holders k = cntOf (run newCfg {} ops).reg k :=
+  ⟨(inv_run legacyCfg ops {} (inv_init _)).cntEq (Or.inr (by decide)) k,
+   (inv_run newCfg ops {} (inv_init _)).cntEq (Or.inl (by decide)) k⟩
+
+/-- **Exact counting without the duplicate-name repair (partial: no function names a service twice).**  When definitions are started
 at once (`legacyCfg`) and every definition's service names are distinct, the count of every service equals the number
-of registrations the live functions hold – for every operation sequence; `C12_duplicate_cex` shows the hypothesis is
-needed. -/
+of registrations the live functions hold – for every operation sequence; `C12_duplicate_regress` shows that before the
+repair the hypothesis was needed. -/
 theorem C12_count_exact_partial (cfg : Cfg) (hd : cfg.delayTopLevel = false) (ops : List Op)
     (hn : ∀ op ∈ ops, ∀ ctx fn var gen decl, op = .define ctx fn var gen decl → (decl.map (·.1)).Nodup) (k : Svc) :
     trackedCount (run cfg {} ops).holders k = cntOf (run cfg {} ops).reg k := by
@@ -118,9 +136,9 @@ theorem C12_owner_shared (cfg : Cfg) (ops : List Op) (h1 h2 : Holder) (k : Svc)
   rw [a] at b
   exact ⟨Option.some.inj b, a⟩
 
-/-- **Nothing is left behind (new subsystem's list tracking)**: once no holder is left – every context unloaded, every
+/-- **Nothing is left behind (exact bookkeeping: both subsystems as they are now)**: once no holder is left – every context unloaded, every
 function deleted – no service is registered any more. -/
-theorem C12_unload_clean (cfg : Cfg) (hl : cfg.trackAsSet = false) (ops : List Op)
+theorem C12_unload_clean (cfg : Cfg) (hl : Exact cfg) (ops : List Op)
     (hempty : (run cfg {} ops).holders = []) (k : Svc) : registered (run cfg {} ops).reg k = false := by
   have hi := inv_run cfg ops {} (inv_init cfg)
   have := hi.cntEq hl k
@@ -141,8 +159,10 @@ theorem C12_latest_after_define (cfg : Cfg) (ops : List Op) (ctx : String) (fn :
   have hi := inv_run cfg ops {} (inv_init cfg)
   generalize run cfg {} ops = st at hi hok
   obtain ⟨q1, q2, ⟨added, q3, q4, _⟩, _, _⟩ := acquireAll_spec cfg (ownerFor cfg ctx fn) gen decl st.reg [] hi.regOK
-  obtain ⟨_, o2⟩ := acquireAll_ok cfg (ownerFor cfg ctx fn) gen decl st.reg [] hok
-  obtain ⟨t1, rs, t2, t3⟩ := o2 k hk
+  obtain ⟨o1, o2, _⟩ := acquireAll_ok cfg (ownerFor cfg ctx fn) gen decl decl st.reg [] (fun d hd => hd)
+    (fun x hx => by simp at hx) hok
+  have t1 := o2 k hk
+  obtain ⟨rs, t2, t3⟩ := o1 k t1
   refine ⟨rs, t2, ?_⟩
   simp only [step, defineStep, hnow, Bool.false_eq_true, if_false, startReg, hok, Bool.true_or, if_true]
   have hu : (acquireAll cfg (ownerFor cfg ctx fn) gen st.reg decl []).reg.underflow = false := by rw [q2]; exact hi.noUnder
@@ -245,20 +265,24 @@ theorem C12_latest_cex :
     aget s1 (run newCfg {} ops).reg.handler = some ⟨2, .none⟩ ∧
     sHandler (sRun [] ops) s1 = some ⟨1, .none⟩ := by decide
 
-/-- **F2, legacy**: a function that names the same service twice registers it twice but remembers it once
-(`trigger_service` is a set): deleting the function leaves the service registered – count 1, no holder. -/
-theorem C12_duplicate_cex :
+/-- **F2 – regression witness (legacy)**: before the repair a function that named the same service twice registered it
+twice but remembered it once (`trigger_service` is a set): deleting the function left the service registered – count 1,
+no holder.  With the repair (`legacyCfg`) the second mention is skipped and nothing is left. -/
+theorem C12_duplicate_regress :
     let ops := [Op.define "a" none "f" 1 [(s1, .none), (s1, .none)], .delete "a" "f"]
-    registered (run legacyCfg {} ops).reg s1 = true ∧ (run legacyCfg {} ops).holders.length = 0 ∧
-    cntOf (run legacyCfg {} ops).reg s1 = 1 ∧
+    registered (run legacyPreFix {} ops).reg s1 = true ∧ (run legacyPreFix {} ops).holders.length = 0 ∧
+    cntOf (run legacyPreFix {} ops).reg s1 = 1 ∧
+    registered (run legacyCfg {} ops).reg s1 = false ∧ cntOf (run legacyCfg {} ops).reg s1 = 0 ∧
     registered (run newCfg {} (ops ++ [.start "a" []])).reg s1 = false ∧ sRegistered (sRun [] ops) s1 = false := by decide
 
-/-- **F3, new**: a service defined at file level is redefined at run time inside a function: the registration is made
-under the evaluator's name `a.opA`, refused because `a` owns it, and when the old function object goes the service is
-un-registered although the new function is live and declares it. -/
-theorem C12_evaluator_owner_cex :
+/-- **F3 – regression witness (new)**: before the repair a service defined at file level and redefined at run time inside
+a function was registered under the evaluator's name `a.opA`, refused because `a` owns it, and un-registered when the old
+function object went – although the new function is live and declares it.  With the repair (`newCfg`) the redefinition
+is accepted and Home Assistant calls the new definition. -/
+theorem C12_evaluator_owner_regress :
     let ops := [Op.define "a" none "f" 1 [(s1, .none)], .start "a" [1], .define "a" (some "opA") "f" 2 [(s1, .none)]]
-    registered (run newCfg {} ops).reg s1 = false ∧ sHandler (sRun [] ops) s1 = some ⟨2, .none⟩ ∧
+    registered (run newPreFix {} ops).reg s1 = false ∧ sHandler (sRun [] ops) s1 = some ⟨2, .none⟩ ∧
+    aget s1 (run newCfg {} ops).reg.handler = some ⟨2, .none⟩ ∧
     aget s1 (run legacyCfg {} ops).reg.handler = some ⟨2, .none⟩ := by decide
 
 /-- **F4, new**: a file defines the same function twice: the manager of the first (dead) definition is still started by
